@@ -6,7 +6,7 @@
    tables: call dialect, Config.dialect, Config.serialization_strategy, default/format dialect)
    and arbitrary type objects An (annotated alias or None), T (exact type), O (origin). *)
 From Coq Require Import List String ZArith.
-From Verif Require Import PyK PyK_strat Strategies StrategiesProofs K5Proofs.
+From Verif Require Import PyK PyK_strat Strategies StrategiesProofs K5Kernel K5Proofs.
 From VerifGen Require Import K5.
 Import ListNotations.
 
